@@ -157,6 +157,37 @@ theorem c08_rewrites_twin (l1 l2 l3 : List NetRule) (x xb : NetRule) (hx : x.bad
   have := c08_twin l1 l2 l3 x xb hx hxb hdist
   simp only [c08_rewrites_filtered, this.1, this.2, and_self]
 
+/-! #### verdicts (the models of NewMatchingResult and GetDNSBasicRule start with the filter) -/
+
+/-- Lists with the same filtered rules give the same web result (all fields, hence the verdict). -/
+theorem c08_verdict_web (rules rules' src src' : List NetRule)
+    (h : removeBadfilterRules rules' = removeBadfilterRules rules)
+    (hs : removeBadfilterRules src' = removeBadfilterRules src) :
+    newMatchingResult rules' src' = newMatchingResult rules src := by
+  unfold newMatchingResult; rw [h, hs]
+
+theorem c08_verdict_dns (rules rules' : List NetRule)
+    (h : removeBadfilterRules rules' = removeBadfilterRules rules) :
+    getDNSBasicRule rules' = getDNSBasicRule rules := by
+  unfold getDNSBasicRule; rw [h]
+
+/-- verdict(L + {x, x$badfilter}) = verdict(L): a twin pair added at arbitrary positions (either
+    order) to the rules matching the request changes neither the web result nor the DNS basic
+    rule; the same for a pair added to the rules matching the referrer. -/
+theorem c08_verdict_twin (l1 l2 l3 other : List NetRule) (x xb : NetRule) (hx : x.badfilter = false)
+    (hxb : xb.matchFields = x.withBadfilter.matchFields)
+    (hdist : ∀ r ∈ l1 ++ l2 ++ l3, r.matchFields ≠ x.matchFields) :
+    newMatchingResult (l1 ++ x :: l2 ++ xb :: l3) other = newMatchingResult (l1 ++ l2 ++ l3) other ∧
+    newMatchingResult (l1 ++ xb :: l2 ++ x :: l3) other = newMatchingResult (l1 ++ l2 ++ l3) other ∧
+    newMatchingResult other (l1 ++ x :: l2 ++ xb :: l3) = newMatchingResult other (l1 ++ l2 ++ l3) ∧
+    newMatchingResult other (l1 ++ xb :: l2 ++ x :: l3) = newMatchingResult other (l1 ++ l2 ++ l3) ∧
+    getDNSBasicRule (l1 ++ x :: l2 ++ xb :: l3) = getDNSBasicRule (l1 ++ l2 ++ l3) ∧
+    getDNSBasicRule (l1 ++ xb :: l2 ++ x :: l3) = getDNSBasicRule (l1 ++ l2 ++ l3) := by
+  have := c08_twin l1 l2 l3 x xb hx hxb hdist
+  exact ⟨c08_verdict_web _ _ _ _ this.1 rfl, c08_verdict_web _ _ _ _ this.2 rfl,
+    c08_verdict_web _ _ _ _ rfl this.1, c08_verdict_web _ _ _ _ rfl this.2,
+    c08_verdict_dns _ _ this.1, c08_verdict_dns _ _ this.2⟩
+
 /-! #### non-vacuity and the old shape (D7) -/
 
 def exR : NetRule := { text := lit "||e.org^", pattern := lit "||e.org^" }
